@@ -107,6 +107,80 @@ func VxC15_Conc() {
 	for it := 0; it < iters && len(vxFailed) < 3; it++ {
 		vxConcOnce(opts, hasPrev, scen, vals)
 	}
+	if !vxIsSymbolic() && len(vxFailed) == 0 {
+		vxConcHammer(opts, hasPrev, scen, vals)
+	}
+}
+
+// vxConcHammer (native replays only): the operations of the scenario run in tight loops
+// against each other for a few thousand rounds; every Get must still return one of the
+// values in full or report the key absent.  A narrow race window (for example between
+// a Stat and an Open) that 400 single-shot rounds did not hit shows up here.
+func vxConcHammer(opts []Option, hasPrev bool, scen []int, vals [][]byte) {
+	c := vxNewCache(opts...)
+	key := "k"
+	_ = c.delete(key)
+	if hasPrev {
+		_ = c.set(key, vals[1])
+	}
+	var stop, bad, failed atomic.Int32
+	done := make(chan int, 2*len(scen))
+	// (a fixed number of rounds: inside the replay's synctest bubble the clock does not
+	// advance while goroutines are busy)
+	rounds := map[int]int{0: 1500, 1: 1500, 2: 3000, 3: 30000}
+	run := func(op int) {
+		for r := 0; stop.Load() == 0 && r < rounds[op]; r++ {
+			switch op {
+			case 0, 1:
+				_ = c.set(key, vals[2+op])
+				if hasPrev {
+					_ = c.set(key, vals[1])
+				}
+			case 2:
+				_ = c.delete(key)
+			default:
+				got, err := c.get(key)
+				if err != nil {
+					if !errors.Is(err, driver.ErrNotExist) {
+						failed.Add(1)
+						stop.Store(1)
+					}
+					continue
+				}
+				ok := false
+				for id := 1; id <= 3; id++ {
+					if bytes.Equal(got, vals[id]) {
+						ok = true
+					}
+				}
+				if !ok {
+					bad.Add(1)
+					stop.Store(1)
+				}
+			}
+		}
+		done <- op
+	}
+	n := 0
+	hasGet := false
+	for _, op := range scen {
+		go run(op)
+		n++
+		if op == 3 {
+			hasGet = true
+		}
+	}
+	if !hasGet { // a reader to observe what the writers leave behind
+		go run(3)
+		n++
+	}
+	go run(3)
+	n++
+	for i := 0; i < n; i++ {
+		<-done
+	}
+	vxAssert(bad.Load() == 0, "C15/concurrent-get-returned-partial-or-mixed-value")
+	vxAssert(failed.Load() == 0, "C15/concurrent-get-failed-without-fault")
 }
 
 func vxConcOnce(opts []Option, hasPrev bool, scen []int, vals [][]byte) {
